@@ -132,7 +132,7 @@ impl Options {
 	}
 }
 
-fn gen_options(rng: &mut Rng, ts: &TileSet, rep: &mut Report, cli: bool) -> Options {
+fn gen_options(rng: &mut Rng, ts: &mut TileSet, rep: &mut Report, cli: bool) -> Options {
 	let levels: Vec<u8> = ts.levels().into_iter().collect();
 	// output-space bounds of the highest level (selection is in output coordinates)
 	let flip = rng.bool();
@@ -156,7 +156,7 @@ fn gen_options(rng: &mut Rng, ts: &TileSet, rep: &mut Report, cli: bool) -> Opti
 			x1 = x1.max(k.1);
 			y1 = y1.max(k.2);
 		}
-		match if source_box { 7 } else { rng.below(8) } {
+		match if source_box { 7 } else { rng.below(10) } {
 			7 => {
 				// the box that holds the whole *untransformed* coverage on every level (as if chosen by looking at
 				// the source): with flip / swap it cuts the relocated tiles
@@ -196,6 +196,28 @@ fn gen_options(rng: &mut Rng, ts: &TileSet, rep: &mut Report, cli: bool) -> Opti
 				o.bbox = Some([cx, cy, cx, cy]); // degenerate point
 			}
 			4 => o.bbox = Some([-180.0, -85.05112877980659, 180.0, 0.0]),
+			8 | 9 => {
+				// "the world" as users spell it: full (or nearly full) longitude range, latitude limits at or just
+				// inside the Mercator limit — the outermost rows of deep levels lie outside such a box
+				let (lat, lon): (&[f64], &[f64]) = if rng.chance(0.6) { (&[85.0, 85.0, 85.04, 85.05], &[180.0]) } else { (&[85.0, 85.0, 85.04, 85.05, 85.0511, 85.05112877980659, 84.0, 86.0, 90.0, 80.0], &[180.0, 180.0, 180.0, 179.999, 179.0]) };
+				o.bbox = Some([-*rng.pick(lon), -*rng.pick(lat), *rng.pick(lon), *rng.pick(lat)]);
+				rep.count("world_like_boxes", 1);
+				// and the tile set reaches a pole on a level between 10 and 12 (one pole per level keeps the level box small)
+				let mid: Vec<u8> = levels.iter().cloned().filter(|z| (10..=12).contains(z)).collect();
+				let mut add: Vec<Key> = vec![];
+				if mid.is_empty() {
+					add.extend([(12u8, 7u32, 0u32), (12, 8, 1), (11, 3, 2047), (11, 3, 2046)]);
+				} else {
+					for (i, z) in mid.iter().enumerate() {
+						let x = ts.tiles.keys().find(|k| k.0 == *z).map(|k| k.1).unwrap_or(0);
+						add.push((*z, x, if i % 2 == 0 { 0 } else { ((1u64 << z) - 1) as u32 }));
+					}
+				}
+				for k in add {
+					let raw = gen::payload_unique(k.0, k.1, k.2, 24, rng);
+					ts.tiles.insert(k, if ts.really_compressed { crate::comp::compress(&raw, ts.comp) } else { raw });
+				}
+			}
 			_ => o.bbox = Some(model::safe_geo_box(rng, &levels, (z, x0, y0, x1, y1))),
 		}
 		if !source_box && rng.chance(0.5) {
@@ -235,8 +257,8 @@ fn run_case(cx: &CaseCtx, rep: &mut Report) {
 	let small = level == "server";
 	let target = if level == "cli" { TARGETS[(cx.case / 6 % 5) as usize] } else { "tar" };
 	let opts = GenOpts { max_tiles: if small { 60 } else { cx.tier.pick(400, 1200) }, max_level: if small { 12 } else { 31 }, formats: pairs_for(target), unique_payloads: true, really_compress: small, ..Default::default() };
-	let ts = gen::gen_tileset(&mut rng, &opts);
-	let o = gen_options(&mut rng, &ts, rep, level == "cli");
+	let mut ts = gen::gen_tileset(&mut rng, &opts);
+	let o = gen_options(&mut rng, &mut ts, rep, level == "cli");
 	let (certain, dontcare) = expected(&ts, &o);
 	rep.count(&format!("cases_{level}"), 1);
 	if o.flip && o.swap {
